@@ -94,7 +94,7 @@ pub fn format_parse_error(input: &str, err: nom::Err<NomError<&str>>) -> String 
                             .fold(false)
                             .annotation(
                                 AnnotationKind::Primary
-                                    .span(offset..offset.saturating_add(1).min(input.len()))
+                                    .span(offset..error_span_end(input, offset))
                                     .label(&final_label)
                             )
                     )
@@ -129,6 +129,15 @@ pub fn format_parse_error(input: &str, err: nom::Err<NomError<&str>>) -> String 
             format!("\n{}", renderer.render(report))
         }
     }
+}
+
+/// End of the one-character span that starts at `offset`, always on a UTF-8
+/// character boundary (a multi-byte character is covered completely).
+fn error_span_end(input: &str, offset: usize) -> usize {
+    input
+        .get(offset..)
+        .and_then(|rest| rest.chars().next())
+        .map_or(offset.min(input.len()), |c| offset + c.len_utf8())
 }
 
 /// Detect specific SPARQL errors and provide helpful messages
